@@ -4,7 +4,7 @@ From Coq Require Import List ZArith Bool.
 From Coq.Strings Require Import Byte.
 Import ListNotations.
 From SV Require Import Text G_tab C11_Model C11_Lemmas C11_TextLemmas C11_FileLemmas C11_Examples C11_IntLemmas C11_RenderLemmas
-  C11_SelectLemmas C11_BlocksLemmas C11_Examples2 C11_AnyLemmas C11_TableLemmas C11_Examples3.
+  C11_SelectLemmas C11_BlocksLemmas C11_Examples2 C11_AnyLemmas C11_TableLemmas C11_Examples3 C11_FloatLemmas.
 Local Open Scope Z_scope.
 
 (* P0 orientation: the decision of core.py:313-335 is the sign rule; in particular every accepted row spans
@@ -224,7 +224,7 @@ Print Assumptions C11_universal_newlines.
 (* typed conversion of the coordinate columns: int() of the decimal rendering of z is z, also with blanks around *)
 Theorem C11_int_of_decimal : forall z,
   py_int (dec_of_Z z) = Some z /\ conv TInt (dec_of_Z z) = AInt z /\
-  (forall a b, all_space a = true -> all_space b = true -> py_int (a ++ dec_of_Z z ++ b) = Some z).
+  (forall a b, all_space_num a = true -> all_space_num b = true -> py_int (a ++ dec_of_Z z ++ b) = Some z).
 Proof. exact (fun z => conj (py_int_dec z) (conj (conv_int_dec z) (fun a b => py_int_padded a b z))). Qed.
 Print Assumptions C11_int_of_decimal.
 
@@ -663,3 +663,31 @@ Example C11_witness_typed :
   | Err _ => False
   end.
 Proof. exact witness_typed. Qed.
+
+(* ---- round 7: float() on e-values and scores, plain and exponent notation ----
+   float_text sg ip fp ex = sign ++ integer digits ++ [. fraction digits] ++ [(e|E) sign digits]; float_text_ok = sign is
+   empty, + or -, the digit strings are decimal digits, the mantissa has at least one digit, the exponent (if any) has a
+   mark e/E, a sign and at least one digit. Every such text, with the blanks float() skips around it, reads as the number
+   (-1)^neg * mantissa * 10^exponent with exactly that mantissa and exponent (exponent of the text minus the number of
+   fraction digits). The binary rounding of that number is CPython's and is tested (literal stream), not modelled. *)
+Theorem C11_float_parse : forall sg ip fp ex a b,
+  float_text_ok sg ip fp ex = true -> all_space_num a = true -> all_space_num b = true ->
+  py_float (a ++ float_text sg ip fp ex ++ b) = Some (float_text_val sg ip fp ex).
+Proof. exact float_parse. Qed.
+Print Assumptions C11_float_parse.
+
+(* the words inf / infinity / nan in any letter case, with an optional sign and blanks around *)
+Theorem C11_float_words : forall sg w k a b,
+  sign_ok sg = true -> is_word w = Some k -> all_space_num a = true -> all_space_num b = true ->
+  py_float (a ++ (sg ++ w) ++ b) = Some (if k then FInf (sign_neg sg) else FNan).
+Proof. exact float_words. Qed.
+Print Assumptions C11_float_words.
+
+Example C11_witness_float :
+  float_text [] (bs "5"%bs) (Some (bs "331"%bs)) (Some ("E"%byte, bs "-"%bs, bs "82"%bs)) = bs "5.331E-82"%bs /\
+  float_text_ok [] (bs "5"%bs) (Some (bs "331"%bs)) (Some ("E"%byte, bs "-"%bs, bs "82"%bs)) = true /\
+  float_text_val [] (bs "5"%bs) (Some (bs "331"%bs)) (Some ("E"%byte, bs "-"%bs, bs "82"%bs)) = FNum false 5331 (-85) /\
+  float_text_ok (bs "-"%bs) [] (Some (bs "5"%bs)) (Some ("e"%byte, bs "+"%bs, bs "3"%bs)) = true /\
+  py_float (bs " -.5e+3 "%bs) = Some (FNum true 5 2) /\ py_float (bs "1e"%bs) = None /\ py_float (bs "."%bs) = None /\
+  is_word (bs "InFiNiTy"%bs) = Some true /\ py_float (bs "-NaN"%bs) = Some FNan /\ py_float (unhex (bs "371f"%bs)) = None.
+Proof. exact witness_float. Qed.
